@@ -102,7 +102,7 @@ def expected_render(template, fields, formatter):
     return ''.join(out)
 
 
-def gen_template(rng, fields):
+def gen_template(rng, fields, typed_ok=False):
     parts = []
     names = list(fields)
     for _ in range(rng.randint(1, 5)):
@@ -121,7 +121,11 @@ def gen_template(rng, fields):
                 parts.append('{%s:%s}' % (n, rng.choice(['>10', '<8', '^12', ''])))
             else:
                 if isinstance(v, int) and not isinstance(v, bool):
-                    parts.append('{%s:line}' % n)
+                    parts.append(rng.choice(['{%s:line}', '{%s:>6:line}', '{%s:03:line}'] + (['{%s:python_value}'] if typed_ok else [])) % n)
+                elif isinstance(v, (list, tuple)) and typed_ok:
+                    parts.append(rng.choice(['{%s:name}', '{%s:python_value}', '{%s}']) % n)
+                elif not isinstance(v, str) and typed_ok:
+                    parts.append(rng.choice(['{%s:python_value}', '{%s:line}', '{%s}']) % n)
                 elif isinstance(v, str):
                     f = rng.choice(['name', 'python_code', 'python_expression', 'python_value', 'filename', 'frame', 'output',
                                     'inputs', 'exception', 'traceback'])
@@ -152,7 +156,21 @@ def make_formatters():
 
         def python_code(self, code, focus=None):
             return '```' + str(code) + '```'
-    return [('Formatter', Formatter), ('HtmlFormatter', HtmlFormatter), ('TextFormatter', TextFormatter), ('custom', ShoutFormatter)]
+
+    class TypeAwareFormatter(Formatter):
+        # what a field is rendered as depends on the VALUE the feedback was given, not on its text: the methods get that value
+        def name(self, name):
+            return ' and '.join('`%s`' % n for n in name) if isinstance(name, (list, tuple)) else '`%s`' % name
+
+        def line(self, line_number):
+            return 'line %d' % (line_number + 1000) if isinstance(line_number, int) and not isinstance(line_number, bool) else 'line <%s:%s>' % (type(line_number).__name__, line_number)
+
+        def python_value(self, code):
+            return '%s %r' % (type(code).__name__, code)
+
+        def python_code(self, code, focus=None):
+            return '[%s]%s' % (type(code).__name__, code)
+    return [('Formatter', Formatter), ('HtmlFormatter', HtmlFormatter), ('TextFormatter', TextFormatter), ('custom', ShoutFormatter), ('type-aware', TypeAwareFormatter)]
 
 
 # ----------------------------------------------------------------------------------------------------------
@@ -218,7 +236,7 @@ def run_constructions(ctx, n):
             kwargs['message'] = explicit_message
             shape.append('message')
         if rng.random() < 0.5 and fields:
-            template = gen_template(rng, fields)
+            template = gen_template(rng, fields, typed_ok=(cur_fmt == 'type-aware'))
             kwargs['message_template'] = template
             shape.append('template')
         if fields and rng.random() < 0.7:
